@@ -161,10 +161,18 @@ def run(res, tier):
             callers.setdefault(c, set()).add(k)
 
     def clears(k, depth=0):
+        """k clears the arena-backed pointers itself, by calling a clearer, or through static helpers of its own file"""
         f = g.funcs[k]
         if k[1] in clearers:
             return True
-        return any(c in clearers for c in f["calls"])
+        if any(c in clearers for c in f["calls"]):
+            return True
+        if depth < 3:
+            for c in g.callees(k, indirect=False):
+                cf_ = g.funcs.get(c)
+                if cf_ is not None and cf_["static"] and cf_["file"] == f["file"] and c != k and clears(c, depth + 1):
+                    return True
+        return False
 
     for k, lines in sorted(rewinders.items()):
         f = g.funcs[k]
